@@ -10,8 +10,8 @@
   where the frames are those the writer moved to the wire while the system settled after the
   operation.  The harness waits for quiescence after every operation, so the driver runs the
   internal steps that are enabled to completion in the order the real tasks do:
-  every `taskStep`, then (mode `eager`: the real writer task) `writerStep` until the queues are
-  empty, then `connFinish`.  In mode `manual` the harness owns the queue and steps the writer
+  every `taskStep` (tasks parked on a full queue first, in parking order — tokio's channel is fair),
+  then (mode `eager`: the real writer task) `writerStep` until the queues are empty, then `connFinish`.  In mode `manual` the harness owns the queue and steps the writer
   explicitly (`ss wstep c`).
 -/
 import JrpcVerif.Driver.Codec
@@ -22,6 +22,9 @@ open Jrpc Jrpc.SubServer
 structure SubSt where
   st : State := { conns := [] }
   eager : Bool := true
+  /-- subscription tasks parked on a full queue (closing notification), in the order they parked:
+  tokio's bounded channel admits waiting senders first-come first-served -/
+  waiting : List Nat := []
 
 namespace Subs
 
@@ -55,8 +58,16 @@ def isClosedRepr : Out → String
   | .bool b => if b then "closed=1" else "closed=0"
   | o => outRepr o
 
-def settleTasks (st : State) : State :=
-  (List.range st.subs.length).foldl (fun s k => (step s (.taskStep k)).1) st
+/-- run every enabled `taskStep`: first the parked ones in parking order, then the others; returns
+the new parking order -/
+def settleTasks (st : State) (waiting : List Nat) : State × List Nat :=
+  let order := waiting ++ (List.range st.subs.length).filter (fun k => !(waiting.contains k))
+  order.foldl
+    (fun (acc : State × List Nat) k =>
+      match step acc.1 (.taskStep k) with
+      | (s', .blocked) => (s', acc.2 ++ [k])
+      | (s', _) => (s', acc.2))
+    (st, [])
 
 /-- writer steps on connection `c` until nothing moves (fuel = queue length + 1) -/
 def drainConn (st : State) (c : Nat) : Nat → State × List Frame
@@ -81,12 +92,12 @@ def drainAll (st : State) : State × List (List Frame) :=
 def finishAll (st : State) : State :=
   (List.range st.conns.length).foldl (fun s c => (step s (.connFinish c)).1) st
 
-def settle (eager : Bool) (st : State) : State × List (List Frame) :=
-  let st1 := settleTasks st
+def settle (eager : Bool) (st : State) (waiting : List Nat) : State × List (List Frame) × List Nat :=
+  let (st1, w1) := settleTasks st waiting
   if eager then
     let (st2, fs) := drainAll st1
-    (finishAll st2, fs)
-  else (st1, st1.conns.map (fun _ => []))
+    (finishAll st2, fs, w1)
+  else (st1, st1.conns.map (fun _ => []), w1)
 
 def framesRepr (fs : List Frame) : String :=
   if fs.isEmpty then "-" else String.intercalate "," (fs.map frameRepr)
@@ -107,8 +118,18 @@ def parseRet (w : String) : Option Ret :=
 
 def runOp (s : SubSt) (op : Op) (repr : Out → String := outRepr) : SubSt × String :=
   let (st1, o) := step s.st op
-  let (st2, fss) := settle s.eager st1
-  ({ s with st := st2 }, lineRepr (repr o) st2 fss)
+  let (st2, fss, w) := settle s.eager st1 s.waiting
+  ({ s with st := st2, waiting := w }, lineRepr (repr o) st2 fss)
+
+/-- several model steps with no settling in between (the script did not yield between them) -/
+def runOps (s : SubSt) (ops : List Op) (sep : String) : SubSt × String :=
+  let (st1, os) := ops.foldl
+    (fun (acc : State × List String) op =>
+      let (st', o) := step acc.1 op
+      (st', acc.2 ++ [outRepr o]))
+    (s.st, [])
+  let (st2, fss, w) := settle s.eager st1 s.waiting
+  ({ s with st := st2, waiting := w }, lineRepr (String.intercalate sep os) st2 fss)
 
 def nat3 (a b c : String) : Option (Nat × Nat × Nat) :=
   match a.toNat?, b.toNat?, c.toNat? with
@@ -135,6 +156,16 @@ def subsVerb (s : SubSt) (ws : List String) : Option (SubSt × String) :=
           | none => (s, "bad-op"))
       | ["accept", k] =>
         (match k.toNat? with | some k => runOp s (.accept k) | none => (s, "bad-op"))
+      | ["acceptsend", k, p] =>
+        (match k.toNat?, p.toNat? with
+          | some k, some p => runOps s [.accept k, .send k p] "+"
+          | _, _ => (s, "bad-op"))
+      | ["burst", k, p, n] =>
+        (match nat3 k p n with
+          | some (k, p, n) =>
+            if n == 0 || n > 16 then (s, "bad-op")
+            else runOps s ((List.range n).map (fun i => Op.send k (p + i))) ","
+          | none => (s, "bad-op"))
       | ["reject", k, code] =>
         (match k.toNat?, parseInt code with
           | some k, some code => runOp s (.reject k code)
@@ -159,8 +190,11 @@ def subsVerb (s : SubSt) (ws : List String) : Option (SubSt × String) :=
         (match nat3 c m x, rid.toNat? with
           | some (c, m, x), some rid => runOp s (.unsubscribe c m x rid)
           | _, _ => (s, "bad-op"))
-      | ["connclose", c] =>
-        (match c.toNat? with | some c => runOp s (.connClose c) | none => (s, "bad-op"))
+      | ["connclose", c, how] =>
+        -- `how` (graceful = WebSocket close frame first | abrupt = socket dropped) is one model step
+        (match c.toNat? with
+          | some c => if how == "graceful" || how == "abrupt" then runOp s (.connClose c) else (s, "bad-op")
+          | none => (s, "bad-op"))
       | ["stop"] => runOp s .stop
       | ["wstep", c] =>
         (match c.toNat? with
